@@ -40,9 +40,17 @@ type expectation struct {
 
 func expect(o gen.NestedOpt) expectation {
 	e := expectation{}
+	notEvidence := o.DefectLevel == 2 && (o.Defect == "sub-other-key" || o.Defect == "sub-sig-corrupt")
 	switch {
+	case notEvidence && o.CoThreshold == 1 && o.ParentRules == "match":
+		// a layout that is not validly signed by the functionary it is filed under is no evidence at all;
+		// the co-functionary's link serves the step and the layout is not followed
+		e.accept, e.noSubMarkers = true, true
+	case o.Delegate != "authorised" && o.CoThreshold == 1 && o.Defect == "" && o.ParentRules == "match":
+		// the layout offered by the unauthorised functionary is not followed; the co-functionary's link serves the step
+		e.accept, e.noSubMarkers = true, true
 	case o.Delegate != "authorised":
-		// the layout offered for step b is never followed; the step has no authorised evidence
+		// the layout offered for step b is never followed; the step has no (or not enough) authorised evidence
 		e.accept, e.noMarkerUpTo, e.noSubMarkers = false, 1, true
 	case o.Defect != "":
 		e.accept, e.noMarkerUpTo = false, o.DefectLevel
@@ -76,7 +84,7 @@ func once(c *mcx.Ctx, n *gen.Nested, ch *mcx.Chooser) (obs, sig string) {
 		wrp = "dsse"
 	}
 	cls := fmt.Sprintf("depth=%d|defect=%s@%d|delegate=%s|parent-rules=%s|single-step=%v|sibling=%v|%s", o.Depth, o.Defect, o.DefectLevel, o.Delegate, o.ParentRules, o.SingleStep, o.Sibling, wrp)
-	short := fmt.Sprintf("defect=%s|delegate=%s|parent-rules=%s|single-step=%v|sibling=%v|%s", o.Defect, o.Delegate, o.ParentRules, o.SingleStep, o.Sibling, wrp)
+	short := fmt.Sprintf("defect=%s|delegate=%s|parent-rules=%s|single-step=%v|sibling=%v|co-functionary-threshold=%d|extra-signer=%v|%s", o.Defect, o.Delegate, o.ParentRules, o.SingleStep, o.Sibling, o.CoThreshold, o.ExtraSigner, wrp)
 	_ = cls
 	if err != nil {
 		obs = fmt.Sprintf("rejected (%s); markers of levels %v", clip(err.Error()), markers)
@@ -103,6 +111,12 @@ func once(c *mcx.Ctx, n *gen.Nested, ch *mcx.Chooser) (obs, sig string) {
 			return obs + "; root summary " + gen.JSON(sum.GetPayload()), "C08|root-summary-wrong|" + short
 		}
 		for lv := 1; lv <= o.Depth; lv++ {
+			if e.noSubMarkers && lv >= 2 {
+				if has(lv) {
+					return obs, "C08|sublayout-of-unauthorised-functionary-followed|" + short
+				}
+				continue
+			}
 			if !has(lv) {
 				return obs, fmt.Sprintf("C08|sublayout-inspection-not-run|level=%d|%s", lv, short)
 			}
@@ -180,6 +194,20 @@ func enumerate(thorough bool, emit func(gen.NestedOpt)) {
 									o := gen.NestedOpt{Depth: depth, DSSE: dsse, Defect: d, DefectLevel: l, Delegate: deleg, ParentRules: pr, SingleStep: single, Sibling: sibling,
 										Expired: T.Add(-time.Hour).Format("2006-01-02T15:04:05Z")}
 									emit(o)
+									if !sibling || thorough {
+										// a second authorised functionary delivers a plain link for the delegated step (threshold 1 and 2);
+										// the sublayout carries a foreign signature in front of the delegate's
+										for _, ct := range []int{1, 2} {
+											o2 := o
+											o2.CoThreshold = ct
+											emit(o2)
+										}
+										if deleg == "authorised" {
+											o3 := o
+											o3.ExtraSigner = true
+											emit(o3)
+										}
+									}
 								}
 							}
 						}
@@ -234,7 +262,7 @@ func replay(c *mcx.Ctx, raw json.RawMessage) (string, string) {
 func init() {
 	mcx.Register(&mcx.Driver{
 		ID: "C08", Run: run, Replay: replay,
-		Rule: "full product over a generated family of nested supply chains: nesting depth 2 (thorough: + 3) x deepest layout with two steps or one step x with/without a second delegation by another functionary x who offers the level-2 layout {authorised, defined but not listed for the step, foreign} x parent rules {matching the summary, violated by it} x defect {none, sublayout signed by another key, signature corrupted, expired (owned clock), link missing / tampered / by an unauthorised key, rule violated, threshold unmet} x level of the defect 1..depth x {legacy, DSSE}; " +
+		Rule: "full product over a generated family of nested supply chains: nesting depth 2 (thorough: + 3) x deepest layout with two steps or one step x with/without a second delegation by another functionary x with/without a second authorised functionary delivering a plain link for the delegated step (threshold 1 / 2) x with/without a foreign signature in front of the delegate's on the sublayout x who offers the level-2 layout {authorised, defined but not listed for the step, foreign} x parent rules {matching the summary, violated by it} x defect {none, sublayout signed by another key, signature corrupted, expired (owned clock), link missing / tampered / by an unauthorised key, rule violated, threshold unmet} x level of the defect 1..depth x {legacy, DSSE}; " +
 			"each under every order of the sublayout loops and the counting loop (thorough: + one deviation elsewhere). Every layout carries a marker inspection. quick keeps unauthorised delegations to defect-free chains. non-trivial = anything but the plain honest 2-step nesting. states = cases, transitions = choice points.",
 		Assumptions: []string{"the verdict is known by construction; REQUIRE rules in every parent make an empty or wrong summary visible", "sublayouts delegated to a certificate functionary are outside the family (don't-care)"},
 	})
